@@ -24,7 +24,7 @@ inductive Out (α : Type) where
   | err (e : Err)
   | panic (site : Nat)
   | diverge
-deriving Repr, Inhabited
+deriving Repr, Inhabited, DecidableEq
 
 def Out.ofFailed {α : Type} (code : Nat) : Out α := if code == panicDiverge then .diverge else .panic code
 
